@@ -351,3 +351,34 @@ Proof.
   intros Ht. unfold sort_tau_by_y_gen.
   now rewrite rev_length, length_isort_by, Ht, map_length, seq_length.
 Qed.
+
+(* ------------------------------------------------------------------ *)
+(** * map_opt, sorted rows                                              *)
+Lemma map_opt_map {A B C} (g : A -> B) (f : B -> option C) l :
+  map_opt f (map g l) = map_opt (fun x => f (g x)) l.
+Proof. induction l as [|x l IH]; simpl; [reflexivity|]. now rewrite IH. Qed.
+
+Lemma map_opt_ext_in {A B} (f g : A -> option B) l :
+  (forall x, In x l -> f x = g x) -> map_opt f l = map_opt g l.
+Proof.
+  induction l as [|x l IH]; intros H; simpl; [reflexivity|].
+  rewrite (H x) by (left; reflexivity). rewrite IH; [reflexivity|].
+  intros y Hy. apply H. now right.
+Qed.
+
+Lemma nth_map_row_ind (l : tab3) i : nth i (map row_ind l) 0 = tab3_at0 l i.
+Proof. exact (map_nth row_ind l (0, 0%Q, 0%Q) i). Qed.
+
+Lemma first_rows_map tie n tau y :
+  tie_len tie ->
+  first_rows tie n tau y
+  = map (fun i => (i, tab3_at0 (sort_tau_by_y_gen tie n tau y) i)) (seq 0 (n - 1)).
+Proof.
+  intros Ht. unfold first_rows. rewrite <- firstn_map.
+  rewrite (combine_seq_firstn 0).
+  - apply map_ext. intros i. now rewrite nth_map_row_ind.
+  - rewrite map_length, length_sort_tau_by_y by assumption. lia.
+Qed.
+
+Lemma opt_eta {A} (x : option A) : match x with Some e => Some e | None => None end = x.
+Proof. destruct x; reflexivity. Qed.
